@@ -399,6 +399,10 @@ class ModuleVistor(NodeVisitor):
             if ob is None:
                 current.report("cannot resolve re-exported name :"
                                         f'{modname}.{origin_name}', thresh=1)
+            elif isinstance(ob, model.Module) and not isinstance(current, model.Package):
+                # A module can only be documented as part of a package: 
+                # when re-exported by a plain module it stays where it is.
+                pass
             else:
                 if origin_module.all is None or origin_name not in origin_module.all:
                     self.system.msg(
